@@ -19,6 +19,7 @@ for d in sorted(glob.glob("/verif/seeded/C*")):
     try:
         for tier, budget in (("quick", None), ("quick", "120000")):
             env = dict(os.environ)
+            env["VERIF_EVIDENCE_DIR"] = "/verif/.build/sweep-evidence"
             if budget:
                 env["VERIF_BUDGET_MS"] = budget
             t0 = time.time()
